@@ -97,7 +97,6 @@ RESTS = {
     "aff_of": "`Secp.mkPt_ne_zero` (SecpE); definitions of `aff`, `affx`, `affy`; " + PRIME_P,
     "neg_parity": "`ZMod.neg_val`, `ZMod.val_lt`, P odd, `omega`",
     "fneg_sq": "`neg_mul_neg`",
-    "finv_neg": "`inv_neg`",
     "poly_nonzero": "`Secp.Hyp.nocube` of `Secp.hypP` (N1); " + PRIME_P,
     "sq_zero": "`mul_self_eq_zero`",
     "firstnz_step": "definition of `firstnz` (`Nat.find`); `Nat.find_eq_zero`, `Nat.find_eq_iff`, `Nat.find_min`",
